@@ -26,7 +26,7 @@ CLAIMS = {
               'DESIGN.md 5 C02'),
     'C03': _c('Structural isolation rules: every yacc parse names a private cloned lexer, all instance state is born in __init__ '
               'from fresh containers, no class-level mutable state or mutable defaults, registry is write-once at import, no ply '
-              'module-global API, no lock of any kind held while host code runs, registering modules are imported when the package is, and a parser made by the copy hooks the class defines (__copy__, __deepcopy__, copy, clone) shares no listener list, variable table or function table with its original (scripted history on the abstract parser object). Necessary conditions for isolation/re-entrancy under every interleaving; races inside ply not decided.',
+              'module-global API, no lock of any kind held while host code runs, registering modules are imported when the package is, and a parser made by the copy hooks the class defines (__copy__, __deepcopy__, copy, clone) shares no listener list, variable table, function table or LALR engine with its original, carries listeners over under their own names and kinds, and neither side unsubscribes the other (scripted history on the abstract parser object). Necessary conditions for isolation/re-entrancy under every interleaving; races inside ply not decided.',
               'who-may-call / ownership rules over ast + call graph',
               'DESIGN.md 5 C03'),
     'C04': _c('The grammar as data: precedence table vs the stated order, the LALR automaton rebuilt from ast-extracted grammar '
